@@ -189,7 +189,7 @@ fn exec_long(case: &Value) -> Vec<Value> {
             Err(m) => { st = format!("panic:new:{m}"); (vec![], vec![], 0) }
         };
         out.push(json!({"st": st, "kind": "long", "which": which, "text": text.as_bytes(), "ids": ids, "dec": dec, "vs": vs,
-                        "case": case}));
+                        "tab": tab.iter().map(|e| bytes_json(e)).collect::<Vec<_>>(), "case": case}));
     }
     out
 }
